@@ -25,7 +25,7 @@ CHECKS = {
         "category": "exploration",
         "design_ref": "DESIGN.md sections 5.1, 5.2",
         "technique": "deterministic simulation of a multi-node exchange: producers on CPython 3.7-3.10 and consumers on 3.7-3.13 as real processes under a hub that decides every delivery, order, duplication, transcoding, key/frozenset shuffle and node restart (new hash seed) from one seed; canonical-form monitors at every hop",
-        "text": "Seeded search over producer->consumer routes (1-3 hops) across seven interpreter versions with seeded hash seeds and transport faults that preserve meaning (duplicate, reorder, transcode via json/orjson, shuffle key order and frozenset listings, restart the consumer). At every hop the canonical re-serialization must equal the producer's document, the canonical normalized form must be the same on every host, duplicate and post-restart deliveries must answer identically, and hosts that cannot build code objects (3.11+) must still load, normalize and dump. The full producer x consumer version matrix is filled in every quick run; sampling of documents and routes, not proof.",
+        "text": "Seeded search over producer->consumer routes (1-3 hops) across seven interpreter versions with seeded hash seeds and transport faults that preserve meaning (duplicate, reorder, transcode via json/orjson, shuffle key order and frozenset listings, restart the consumer). At every hop the canonical re-serialization must equal the producer's document, the canonical normalized form must be the same on every host, duplicate and post-restart deliveries must answer identically, a long-lived consumer that handles several different documents in a row (35 % of runs) must answer as a fresh one, and hosts that cannot build code objects (3.11+) must still load, normalize and dump. The full producer x consumer version matrix is filled in every quick run; sampling of documents and routes, not proof.",
         "note": "Nodes are separate OS processes (different CPython versions cannot share an address space); the hub has one request outstanding per run, so runs are sequential and replay from their explicit plan. Loss/truncation/corruption of JSON text is not injected: the property promises nothing about broken documents.",
     },
     "C16": {
@@ -41,7 +41,7 @@ CHECKS = {
         "category": "exploration",
         "design_ref": "DESIGN.md sections 4.3 (F5), 4.6",
         "technique": "deterministic simulation: seeded histories of code/JSON round trips and normalize over one program lineage, with serialization-artefact faults injected into the code object in transit (table permutations with operand renumbering, unreferenced entries, redundant EXTENDED_ARG, CO_NESTED, junk operand bytes; each gated by CPython's own dis/line reading) and benign transit shuffles of JSON text",
-        "text": "Seeded search over operation histories {normalize, code round trip, JSON round trip} of bounded length on real CPython 3.7-3.10, with artefact perturbations of the code object in transit and of the original; invariant after every step: the normalized state equals the lineage's first normal form (library ==); sampled normal forms are also compared with the one a pristine second copy of the library computes (a canonical form cannot depend on what else the process normalized before; decoy lineages holding confusable look-alike constants are interleaved to prime any cache). Sampling of histories and perturbations, not proof.",
+        "text": "Seeded search over operation histories {normalize, code round trip, JSON round trip} of bounded length on real CPython 3.7-3.10, with artefact perturbations of the code object in transit and of the original; invariant after every step: the normalized state equals the lineage's first normal form (library ==); sampled normal forms are also compared with the one a pristine second copy of the library computes (a canonical form cannot depend on what else the process normalized before; decoy lineages holding confusable look-alike constants are interleaved to prime any cache; calls aborted at a seeded line and refused foreign documents are interleaved as failed calls the caller survives). Sampling of histories and perturbations, not proof.",
         "note": "Trusted: CPython's dis / co_lines / findlinestarts as the gate that a perturbed object is the same program; the harness's own bytecode reader/writer (sim/bytecode.py). A perturbed object that from_code refuses is counted inconclusive (C11 allows raising).",
     },
     "C07": {
@@ -49,7 +49,7 @@ CHECKS = {
         "category": "exploration",
         "design_ref": "DESIGN.md sections 5.1, 5.3",
         "technique": "deterministic simulation of a document exchange: a hub-owned transport between real interpreter processes (seeded hash seeds) that transcodes (json options, orjson), shuffles, duplicates, reorders and restarts; monitors on every message in flight (strict JSON, two independent schema validators) and reload on the producer and on a fresh same-version node with strict fingerprints",
-        "text": "Seeded search over exchange runs: every document entering the hub's transport (raw and normalized, from producers on CPython 3.7-3.10) is checked as it travels for strictness (types, keys, finite floats, |int|<=2^53-1, UTF-8, json/orjson agreement), validity against the exported JSON_SCHEMA under fastjsonschema and jsonschema, and - after a real serialize/parse cycle through a seeded transcoder - reload to data equal (==, hash) to what the producer holds and, on a fresh node of the producing version under another hash seed, to identical strict fingerprints of the data and of its to_code(). The constant space is covered by the workload (constant zoo, hand-grafted nested constants, surrogate strings in every string position), not by the simulator; sampling, not proof.",
+        "text": "Seeded search over exchange runs: every document entering the hub's transport (raw and normalized, from producers on CPython 3.7-3.10) is checked as it travels for strictness (types, keys, finite floats, |int|<=2^53-1, UTF-8, json/orjson agreement), validity against the exported JSON_SCHEMA under fastjsonschema and jsonschema, and - after a real serialize/parse cycle through a seeded transcoder - reload to data equal (==, hash) to what the producer holds and, on a fresh node of the producing version under another hash seed, to identical strict fingerprints of the data and of its to_code(); producer histories (the in-memory round trip of docs/usage.md on the same value before the document is made) and long-lived consumers (the document of a normalized value must load back equal on the node that wrote it, after it handled other documents) are part of the seeded runs. The constant space is covered by the workload (constant zoo, hand-grafted nested constants, surrogate strings in every string position), not by the simulator; sampling, not proof.",
         "note": "Borderline applicability (DESIGN.md section 2): the core is an input universal; what the simulator owns is the wire, the JSON implementation on each side and the hash seed of the receiving process. Trusted: json, orjson, fastjsonschema, jsonschema; strict fingerprints. Integers beyond the interpreter's int<->str digit limit are outside the explored space.",
     },
     "C08": {
@@ -57,7 +57,7 @@ CHECKS = {
         "category": "exploration",
         "design_ref": "DESIGN.md sections 4.3 (F6, F7), 4.5",
         "technique": "deterministic simulation: seeded construction routes (decode, normalize, code trip, JSON/pickle/marshal reload, recompile, leaf-by-leaf clone = identity loss; confusable twin programs) feeding a pool whose every pair and triple is checked against the value contract and a strict to_code() fingerprint partition; complete confusable-constant table cross-checked against CPython's _PyCode_ConstantKey",
-        "text": "Seeded search over routes by which equal (or confusably different) CodeData/Constant values come to exist in one process - where object identity of constants, the hidden state the hash/eq contract depends on, differs - on real CPython 3.7-3.10 under seeded hash seeds; every pair/triple in the pool is checked for hashability, equivalence-relation laws, equal=>equal-hash and set/dict behaviour, == versus the strict fingerprint of to_code(), and immutability; create-use-drop histories (values dropped before the next is built, compared with long-lived clones) expose identity-keyed caches; hand-edited and artefact-variant values must be unequal to their originals; a second stage reloads values pickled by the batch workers in fresh processes under another hash seed (restart with only durable state surviving). Sampling of routes and programs; the finite confusables table (incl. hash-colliding constants) is enumerated completely.",
+        "text": "Seeded search over routes by which equal (or confusably different) CodeData/Constant values come to exist in one process - where object identity of constants, the hidden state the hash/eq contract depends on, differs - on real CPython 3.7-3.10 under seeded hash seeds; every pair/triple in the pool is checked for hashability, equivalence-relation laws, equal=>equal-hash and set/dict behaviour, == versus the strict fingerprint of to_code(), and immutability; create-use-drop histories (values dropped before the next is built, compared with long-lived clones) expose identity-keyed caches; hand-edited and artefact-variant values must be unequal to their originals; a stack-pressure sweep evaluates hash/==/set membership with r interpreter frames left for every r around exhaustion (each must report the exhaustion or give the shallow answer); a second stage reloads values pickled by the batch workers in fresh processes under another hash seed (restart with only durable state surviving). Sampling of routes and programs; the finite confusables table (incl. hash-colliding constants) is enumerated completely.",
         "note": "Trusted: strict fingerprints (sim/fp.py) as the reference partition, cross-checked on every constant pair against ctypes _PyCode_ConstantKey with NaNs interned (a disagreement is a harness error).",
     },
     "C11": {
@@ -65,7 +65,7 @@ CHECKS = {
         "category": "fault_enumeration",
         "design_ref": "DESIGN.md section 6",
         "technique": "fault injection on state at rest with a detect-or-preserve oracle: every single-bit flip of co_flags, every small delta and swap of the argument counts (exhaustive per base object), the sign bit, deltas on co_nlocals/co_stacksize/co_firstlineno, seeded multi-bit masks and combinations, applied to stored code objects of seeded programs on CPython 3.7-3.10; flag words alone enumerated (all 2^18 known subsets on 3.9/3.10 in thorough) cold and warm; interrupted-history pass (KeyboardInterrupt at every line of the flag/argument conversion code, then re-judge unaltered objects)",
-        "text": "Enumerates the header-fault space per base code object (31 single-bit flag flips, 15 count deltas, 3 swaps - complete - plus seeded masks/combos) over seeded families of base objects on four interpreters, and the flag-word space (complete over known-flag subsets on 3.9/3.10 in the thorough tier; every subset with <=3 flags set or clear plus seeded samples on 3.7/3.8 where the IntFlag cache makes conversions quadratic). Oracle is the property's own: from_code raises or to_code() reproduces every header field exactly, recursively through nested code; alterations also cover parameter names, header fields of one nested code object, the sign bit and co_nlocals/co_stacksize/co_firstlineno; every fifth batch runs python -O; an interrupted-history pass aborts an encode/decode at every line of the flag/argument conversion and re-judges; an unsupported-feature probe edits data to use positional-only parameters (must raise on 3.7). The fault space per object is finite and enumerated; the base-object space is sampled.",
+        "text": "Enumerates the header-fault space per base code object (31 single-bit flag flips, 15 count deltas, 3 swaps - complete - plus seeded masks/combos) over seeded families of base objects on four interpreters, and the flag-word space (complete over known-flag subsets on 3.9/3.10 in the thorough tier; every subset with <=3 flags set or clear plus seeded samples on 3.7/3.8 where the IntFlag cache makes conversions quadratic). Oracle is the property's own: from_code raises or to_code() reproduces every header field exactly, recursively through nested code; alterations also cover parameter names, header fields of one nested code object, the sign bit and co_nlocals/co_stacksize/co_firstlineno; every fifth batch runs python -O; an interrupted-history pass aborts an encode/decode at every line of the flag/argument conversion and re-judges; data handed out before the alterations is encoded again after them and after the interruptions (a refusal may not change what earlier data encodes to); an unsupported-feature probe edits data to use positional-only parameters (must raise on 3.7). The fault space per object is finite and enumerated; the base-object space is sampled.",
         "note": "Trusted: CPython's code constructor (what it refuses to build cannot reach the library and is counted separately); header comparison by the harness. Interpreters run without -O.",
     },
     "C12": {
